@@ -504,6 +504,26 @@ fn op_generate(req: &Value) -> Value {
         }
         out.insert(name.to_string(), String::from_utf8_lossy(&buf).to_string());
     }
+    if multi_file {
+        // `post_generation` writes into the output folder (Swift: Codable.swift); report what it wrote
+        let dir = std::env::temp_dir().join(format!("tsv-runner-post-{}", std::process::id()));
+        let _ = std::fs::remove_dir_all(&dir);
+        std::fs::create_dir_all(&dir).unwrap();
+        let res = lang.post_generation(&dir.to_string_lossy());
+        if let Ok(rd) = std::fs::read_dir(&dir) {
+            for e in rd.flatten() {
+                let content = std::fs::read(e.path()).unwrap_or_default();
+                out.insert(
+                    format!("<post>/{}", e.file_name().to_string_lossy()),
+                    String::from_utf8_lossy(&content).to_string(),
+                );
+            }
+        }
+        let _ = std::fs::remove_dir_all(&dir);
+        if let Err(e) = res {
+            return json!({"io-err": e.to_string()});
+        }
+    }
     json!({ "ok": out })
 }
 
@@ -541,6 +561,14 @@ fn handle(req: &Value) -> Value {
             let mut data = usizes(&req["data"]);
             verif_hooks::sort_by_indices(&mut data, usizes(&req["idx"]));
             json!({ "ok": data })
+        }
+        "snake" => {
+            use convert_case::{Case, Casing};
+            let rows: Vec<Value> = strs(req, "strings")
+                .iter()
+                .map(|x| json!([x, x.to_case(Case::Snake)]))
+                .collect();
+            json!({ "ok": rows })
         }
         "parse" => op_parse(req),
         "generate" => op_generate(req),
